@@ -53,6 +53,12 @@ func (c content) String() string {
 
 // buildTrie builds the content in one of the storage modes: 0 in memory, 1.. committed at level L, and reloaded.
 func buildTrie(c content, sh Shared, mode int) (*wmpt.WeightedMerkleTrie, *model.WModel) {
+	t, m, _ := buildTrieS(c, sh, mode)
+	return t, m
+}
+
+// buildTrieS also returns the storage the trie sits on.
+func buildTrieS(c content, sh Shared, mode int) (*wmpt.WeightedMerkleTrie, *model.WModel, *dev.Store) {
 	s := dev.NewStore()
 	t := wmpt.New(nil, s)
 	m := model.NewWModel()
@@ -103,7 +109,7 @@ func buildTrie(c content, sh Shared, mode int) (*wmpt.WeightedMerkleTrie, *model
 		_ = t.Root()
 		t = snap
 	}
-	return t, m
+	return t, m, s
 }
 
 type proofElems [][]byte
